@@ -1,14 +1,14 @@
 #!/bin/bash
 # usage: tools/confirm_seed.sh <Cxx> <n>   -- confirms a seeded change in its scratch worktree /tmp/seed/<Cxx>:
 # demo fails with the patch, baseline tests pass with the patch, demo passes without it. Writes /tmp/seed/<Cxx>/confirm_<n>.json
-p=$1; n=$2; wt=/tmp/seed/$p
+p=$1; n=$2; base=${SEED_DIR:-/tmp/seed}; wt=$base/$p
 cd $wt || exit 2
 git checkout -q -- cheetah
 git apply --check patch_$n.diff || { echo "{\"apply\": false}" > confirm_$n.json; exit 1; }
 PYTHONPATH=$wt timeout 900 /venv/bin/python demo_$n.py > demo_$n.clean.log 2>&1; clean_rc=$?
 git apply patch_$n.diff
 PYTHONPATH=$wt timeout 900 /venv/bin/python demo_$n.py > demo_$n.patched.log 2>&1; patched_rc=$?
-tests=$(/tmp/seed/run_tests.sh $wt | head -1)
+tests=$($base/run_tests.sh $wt | head -1)
 git checkout -q -- cheetah
 echo "{\"apply\": true, \"demo_rc_clean\": $clean_rc, \"demo_rc_patched\": $patched_rc, \"tests\": \"$tests\"}" > confirm_$n.json
 cat confirm_$n.json
